@@ -77,6 +77,7 @@ func runC07(t *testing.T, rc *core.RunCtx) {
 		s.Horizon = time.Second
 		eff, all := w.eff, w.all
 		var prev *txRec
+		var autoTxs []*txRec
 		expectAuto := false
 		var expectE []string
 		w.onTxEnd = append(w.onTxEnd, func(tx *txRec) {
@@ -138,6 +139,7 @@ func runC07(t *testing.T, rc *core.RunCtx) {
 			// 3. inside an auto mutation: every called state is judged alone
 			if tx.auto {
 				rc.NonTrivial = true
+				autoTxs = append(autoTxs, tx)
 				K := addClosure(eff, union(tx.before, tx.called, tx.activeEnd))
 				// V: states a candidate of this resolution may have taken away,
 				// directly (Remove) or by taking away something they Require
@@ -225,6 +227,70 @@ func runC07(t *testing.T, rc *core.RunCtx) {
 		s.Run()
 		if s.TimedOut && !s.Failed() {
 			s.Fail("C07/blocked", "calls still in flight: %v", s.InFlight)
+		}
+		// 4. judged alone also means asked: a called Auto state that became
+		// active had each of its own state-state handlers consulted, whatever
+		// happened to the states judged before it. A handler counts as bound
+		// when it was called somewhere in this run.
+		if !s.Failed() && !s.StepLimited {
+			ever := map[string]bool{}
+			for _, c := range w.calls {
+				ever[c.name] = true
+			}
+			for _, tx := range autoTxs {
+				inTx := map[string]bool{}
+				rejected := map[string]bool{}
+				other := false
+				for _, ci := range tx.calls {
+					c := w.calls[ci]
+					inTx[c.name] = true
+					if isNegotiation(c.name) && c.finished && !c.ret {
+						if st, own := c07OwnHandler(w, c); !own {
+							other = true
+						} else {
+							// (a rejected state can come back through an Add
+							// relation of an accepted one: not asked again)
+							rejected[st] = true
+						}
+					}
+				}
+				if other || tx.faulted {
+					continue
+				}
+				for _, a := range tx.called {
+					if !has(tx.activeEnd, a) || has(tx.before, a) || rejected[a] {
+						continue
+					}
+					// only where relations cannot have kept the state out of the
+					// target during the negotiation and brought it in afterwards
+					K := addClosure(eff, union(tx.before, tx.called, tx.activeEnd))
+					plain := true
+					for _, x := range K {
+						if x != a && (has(eff[x].Remove, a) || has(eff[x].Add, a)) {
+							plain = false
+						}
+						for _, rq := range eff[a].Require {
+							if has(eff[x].Remove, rq) {
+								plain = false
+							}
+						}
+					}
+					for _, rq := range eff[a].Require {
+						if !has(tx.before, rq) {
+							plain = false
+						}
+					}
+					if !plain {
+						continue
+					}
+					for _, b := range tx.before {
+						if h := b + a; b != a && ever[h] && !inTx[h] {
+							s.Fail("C07/not-judged", "auto mutation %v (%v -> %v): %s became active without its state-state handler %s being asked (it is bound: it was called in another transition) | %s", tx.called, tx.before, tx.activeEnd, a, h, p.schemaString())
+							return
+						}
+					}
+				}
+			}
 		}
 		for _, r := range w.ops {
 			if r.panicked != "" && !s.Failed() {
